@@ -16,6 +16,10 @@
 //         E:j:addr                       packet j reaches the receiver from address addr
 //         X:addr:hex                     these bytes reach the receiver from address addr
 //         Z:...                          zlib graph entries (used by the model driver only)
+// A second kind of case exercises dataio/PacketizedProxyDataIO.cpp (packets framed over a byte stream) on its own:
+//   T,<wmtu>,<rmtu>|op;..   W:hex:a1:a2  Write(packet); the child stream accepts a1 bytes at its first Write(), a2 at the second
+//                           F:acc        WriteBufferedOutput(); the child accepts acc bytes
+//                           R:usize:a1:a2  Read(buf, usize); the child has a1 bytes for its first Read(), a2 for the second
 // Output: one line "k seg;seg;.." in the canonical text shared with ocaml/tunnel_driver.ml, then
 // "k ORACLE FAIL .." lines from the property's own statement evaluated here, independently of the Coq model.
 // With argv[1] == "--ztable" prints instead, per case, the graph of the zlib codec as seen on the wire.
@@ -35,6 +39,7 @@
 #include "iogateway/PacketTunnelIOGateway.h"
 #include "iogateway/MiniPacketTunnelIOGateway.h"
 #include "iogateway/RawDataMessageIOGateway.h"
+#include "dataio/PacketizedProxyDataIO.h"
 #undef private
 #undef protected
 #include "zlib/ZLibCodec.h"
@@ -177,10 +182,108 @@ static AbstractMessageIOGatewayRef make_slave(char mode)
 static uint32 first_word(const Bytes & b) {return (b.size() >= 4) ? ((uint32)b[0] | ((uint32)b[1]<<8) | ((uint32)b[2]<<16) | ((uint32)b[3]<<24)) : 0;}
 static uint32 word_at(const Bytes & b, size_t o) {return ((uint32)b[o] | ((uint32)b[o+1]<<8) | ((uint32)b[o+2]<<16) | ((uint32)b[o+3]<<24));}
 
+// ---------------------------------------------------------------- PacketizedProxyDataIO over a scripted byte pipe
+// the child stream: a FIFO of bytes; every Write()/Read() on it is allowed the next quota of the script (0 when exhausted)
+class PipeIO : public DataIO
+{
+public:
+   PipeIO(std::vector<uint8> & fifo) : _fifo(fifo) {}
+   virtual io_status_t Read(void * b, uint32 n)
+   {
+      uint32 q = 0; if (!_rq.empty()) {q = _rq.front(); _rq.erase(_rq.begin());}
+      const uint32 k = (uint32) std::min((size_t)std::min(q, n), _fifo.size());
+      if (k > 0) {memcpy(b, &_fifo[0], k); _fifo.erase(_fifo.begin(), _fifo.begin()+k);}
+      return io_status_t((int32)k);
+   }
+   virtual io_status_t Write(const void * b, uint32 n)
+   {
+      uint32 q = 0; if (!_wq.empty()) {q = _wq.front(); _wq.erase(_wq.begin());}
+      const uint32 k = std::min(q, n);
+      const uint8 * p = (const uint8 *) b;
+      _fifo.insert(_fifo.end(), p, p+k); _took.insert(_took.end(), p, p+k);
+      return io_status_t((int32)k);
+   }
+   virtual void FlushOutput() {}
+   virtual void Shutdown() {}
+   virtual const ConstSocketRef & GetReadSelectSocket()  const {return GetNullSocket();}
+   virtual const ConstSocketRef & GetWriteSelectSocket() const {return GetNullSocket();}
+   std::vector<uint8> & _fifo;
+   std::vector<uint32> _rq, _wq;
+   Bytes _took;
+};
+
+static void run_packetized_case(int k, const std::string & line)
+{
+   const size_t bar = line.find('|');
+   std::vector<std::string> hd = split(line.substr(0, bar), ',');
+   if (hd.size() < 3) {printf("%d BADCASE head\n", k); return;}
+   const uint32 wmtu = U(hd[1]), rmtu = U(hd[2]);
+   std::ostringstream o, orc;
+   {
+      std::vector<uint8> fifo;
+      PipeIO wpipe(fifo), rpipe(fifo);
+      PacketizedProxyDataIO w(DummyDataIORef(wpipe), wmtu), r(DummyDataIORef(rpipe), rmtu);
+      std::vector<Bytes> taken, handed; std::vector<uint32> handedCut;
+      bool rerr = false;
+      std::vector<std::string> ops = split(line.substr(bar+1), ';');
+      for (size_t n=0; n<ops.size(); n++)
+      {
+         if (ops[n].empty()) continue;
+         std::vector<std::string> a = split(ops[n], ':');
+         if ((a[0] == "W")&&(a.size() >= 4))
+         {
+            Bytes pk = unhex(a[1]); static const uint8 none = 0;
+            wpipe._wq.clear(); wpipe._wq.push_back(U(a[2])); wpipe._wq.push_back(U(a[3])); wpipe._took.clear();
+            const io_status_t ret = w.Write(pk.empty() ? &none : &pk[0], (uint32)pk.size());
+            if (ret.IsError()) o << "We"; else {o << "W" << ret.GetByteCount(); if (ret.GetByteCount() > 0) taken.push_back(pk);}
+            o << "[" << hex(wpipe._took) << "]/" << w._outputBufferBytesSent << "/" << w._outputBuffer.GetNumBytes() << ";";
+         }
+         else if ((a[0] == "F")&&(a.size() >= 2))
+         {
+            wpipe._wq.clear(); wpipe._wq.push_back(U(a[1])); wpipe._took.clear();
+            w.WriteBufferedOutput();
+            o << "F[" << hex(wpipe._took) << "]/" << w._outputBufferBytesSent << "/" << w._outputBuffer.GetNumBytes() << ";";
+         }
+         else if ((a[0] == "R")&&(a.size() >= 4))
+         {
+            const uint32 usize = std::min(U(a[1]), (uint32)70000);
+            Bytes buf(usize+1);
+            rpipe._rq.clear(); if (r._inputBufferSizeBytesRead < sizeof(uint32)) rpipe._rq.push_back(U(a[2]));  // a1 is for the size word, a2 for the payload
+            rpipe._rq.push_back(U(a[3]));
+            const io_status_t ret = r.Read(&buf[0], usize);
+            if (ret.IsError()) {o << "Re"; rerr = true;}
+            else
+            {
+               o << "R" << ret.GetByteCount() << ":" << hex(&buf[0], (size_t)ret.GetByteCount());
+               if (ret.GetByteCount() > 0) {handed.push_back(Bytes(buf.begin(), buf.begin()+ret.GetByteCount())); handedCut.push_back(usize);}
+            }
+            o << "/" << r._inputBufferSizeBytesRead << "/" << r._inputBuffer.GetNumBytes() << "/" << r._inputBufferBytesRead << ";";
+         }
+         else o << "?;";
+      }
+      // the property's premise "the transport delivers every packet once and in order", for this transport: what Read() hands
+      // over is, in order, what Write() accepted (cut to the caller's buffer); nothing is skipped, repeated or invented
+      bool ok = (handed.size() <= taken.size());
+      for (size_t i=0; ok && i<handed.size(); i++)
+      {
+         Bytes want(taken[i].begin(), taken[i].begin()+std::min((size_t)handedCut[i], taken[i].size()));
+         if (want != handed[i]) ok = false;
+      }
+      if ((!ok)&&(wmtu <= rmtu)) orc << k << " ORACLE FAIL packetized: packets read are not a prefix of the packets written\n";
+      if ((ok)&&(!rerr)&&(wmtu <= rmtu)&&(fifo.empty())&&(!w.HasBufferedOutput())&&(r._inputBufferSizeBytesRead == 0)&&(handed.size() != taken.size()))
+         orc << k << " ORACLE FAIL packetized: stream read to its end but " << taken.size() << " packets written and " << handed.size() << " read\n";
+      if ((rerr)&&(wmtu <= rmtu)) orc << k << " ORACLE FAIL packetized: Read() failed although every packet fits the reader's limit\n";
+   }
+   printf("%d %s\n", k, o.str().c_str());
+   if (!orc.str().empty()) fputs(orc.str().c_str(), stdout);
+   fflush(stdout);
+}
+
 static void run_case(int k, const std::string & line, bool ztable)
 {
    const size_t bar = line.find('|');
    if (bar == std::string::npos) return;
+   if (line.compare(0, 2, "T,") == 0) {if (ztable) printf("%d \n", k); else run_packetized_case(k, line); return;}
    std::vector<std::string> hd = split(line.substr(0, bar), ',');
    if (hd.size() < 7) {printf("%d BADCASE head\n", k); return;}
    const bool mini = (hd[0] == "N");
@@ -311,12 +414,6 @@ static void run_case(int k, const std::string & line, bool ztable)
                Bytes tr(pkt.begin(), pkt.begin()+std::min((size_t)rmtu_eff, pkt.size()));
                if ((tr.size() >= 4)&&(first_word(tr) == rmagic)) {forgedFrom.insert(from); onlyD = false;}
                if (misc) miscFrom[from].push_back(tr);
-               if ((ztable)&&(mini)&&(tr.size() > 12)&&(first_word(tr) == rmagic)&&((word_at(tr, 8)>>24) != 0))
-               {
-                  ZLibCodec codec(3);
-                  ByteBufferRef inf = codec.Inflate(&tr[12], (uint32)(tr.size()-12));
-                  if (inf()) zt << ";Z:i:" << hex(inf()->GetBuffer(), inf()->GetNumBytes()) << ":" << hex(&tr[12], tr.size()-12);
-               }
             }
             else
             {
@@ -327,6 +424,17 @@ static void run_case(int k, const std::string & line, bool ztable)
                if (c == "E") {from = U(a[2]); if (from != own) onlyD = false;} else from = own;
                feeders[from].insert(sent[j].sender);
                deliveredSeq.push_back((int)j);
+            }
+            if ((ztable)&&(mini))
+            {
+               // what a fresh codec makes of the compressed part of this datagram as the receiver will see it (cut to its MTU)
+               Bytes tr(pkt.begin(), pkt.begin()+std::min((size_t)rmtu_eff, pkt.size()));
+               if ((tr.size() > 12)&&(first_word(tr) == rmagic)&&((word_at(tr, 8)>>24) != 0))
+               {
+                  ZLibCodec codec(3);
+                  ByteBufferRef inf = codec.Inflate(&tr[12], (uint32)(tr.size()-12));
+                  if (inf()) zt << ";Z:i:" << hex(inf()->GetBuffer(), inf()->GetNumBytes()) << ":" << hex(&tr[12], tr.size()-12);
+               }
             }
             const size_t before = receiver.got.size();
             rio.SetBuffersToRead(GetByteBufferFromPool((uint32)pkt.size(), pkt.empty() ? NULL : &pkt[0]), iap_of(from));
